@@ -70,7 +70,8 @@ class World(object):
             self.wmts = False
         else:
             W, H = self.bbox[2] - self.bbox[0], self.bbox[3] - self.bbox[1]
-            self.sizes = [(-(-W // (r * self.tile_size[0])), -(-H // (r * self.tile_size[1]))) for r in self.res]
+            # grid.py _calc_grids: whole pixels of the bbox, then whole tiles (a last column narrower than a pixel is dropped)
+            self.sizes = [(max(1, -(-(W // r) // self.tile_size[0])), max(1, -(-(H // r) // self.tile_size[1]))) for r in self.res]
             self.wmts = self.origin == 'ul' or all(h * r * self.tile_size[1] == H for (w, h), r in zip(self.sizes, self.res))
 
     @property
@@ -79,7 +80,7 @@ class World(object):
 
     def consts(self, universe=None, precheck=False, max_req=1):
         c = dict(GridSizes=tuple(self.sizes), Res=tuple(self.res), TileSize=self.tile_size, BBox=self.bbox,
-                 GridOrigin=self.origin, SkipFirst=self.skip_first, SkipOdd=self.sqrt2, WmtsOffered=self.wmts,
+                 GridOrigin=self.origin, SkipFirst=self.skip_first, SkipOdd=bool(self.sqrt2), WmtsOffered=self.wmts,
                  LayerFormat='png', DimValues=set(self.dims), DimDefault=self.dim_default,
                  CovBox=self.cov if self.cov else (), Meta=self.meta, TileLimit=self.tile_limit,
                  PixelLimit=self.pixel_limit, CoarseLevels=self.levels - 1 if self.coarse else 0,
@@ -864,7 +865,7 @@ def run(ctx):
             try:
                 r = jobs[w.name, 'mc'].result()
                 ctx.log('TLC %s: %r' % (w.name, r))
-                if r.violated:
+                if r.violated in INVARIANTS and r.trace:
                     verdict = confront_model_violation(ctx, w, app, r, False)
                     if verdict != 'reproduced':
                         raise tlc.MachineryError('%s: the model violates %s but the real application does not follow the '
@@ -892,7 +893,7 @@ def run(ctx):
                 if (w.name, 'pairs') in jobs:
                     r2 = jobs[w.name, 'pairs'].result()
                     ctx.log('TLC %s pairs: %r' % (w.name, r2))
-                    if r2.violated:
+                    if r2.violated in INVARIANTS and r2.trace:
                         verdict = confront_model_violation(ctx, w, app, r2, False)
                         if verdict != 'reproduced':
                             raise tlc.MachineryError('%s: pairs model violates %s, not reproduced (%s)' % (w.name, r2.violated, verdict))
